@@ -14,7 +14,7 @@
    lookups (which leave the store unchanged: C14_lookups_pure).  There is no bound on
    their length. *)
 From Coq Require Import List ZArith NArith Bool Sorting.Sorted Sorting.Permutation.
-From DepsDev Require Import Lib.Base Lib.Order Gen.ResolveTables Resolve.Attr
+From DepsDev Require Import Lib.Base Lib.Order Lib.Sort Gen.ResolveTables Resolve.Attr
   Resolve.MatchReq Resolve.MatchReq_proofs Resolve.Client Resolve.Client_proofs.
 Import ListNotations.
 
@@ -89,6 +89,44 @@ Theorem C14_dep_order_laws : cmp_laws (fun _ => True) dep_cmp.
 Proof. exact (core_laws _ _ dep_cmp_core). Qed.
 Print Assumptions C14_dep_order_laws.
 
+(* the npm resolution order is determined by the requirements themselves when no two of them
+   are shown under one name with the same development-only status: the list that comes back
+   does not depend on the order in which the requirements were given, and any ascending
+   permutation (whatever sort.Slice does beyond 12 elements) is the model's *)
+Theorem C14_requirements_order_unique : forall ds ds',
+  Forall (fun d => r_sys d = sys_npm) ds -> deps_separated ds -> Permutation ds ds' ->
+  sort_deps ds = sort_deps ds'.
+Proof. exact sort_deps_perm_unique. Qed.
+Print Assumptions C14_requirements_order_unique.
+
+Theorem C14_requirements_any_sort : forall d0 t s,
+  r_sys d0 = sys_npm -> deps_separated (d0 :: t) ->
+  Permutation s (d0 :: t) -> StronglySorted dep_le s -> s = sort_deps (d0 :: t).
+Proof. exact sort_deps_any_sort. Qed.
+Print Assumptions C14_requirements_any_sort.
+
+Theorem C14_requirements_order_insensitive : forall O var ops1 ops2 k v1 d1 v2 d2,
+  last_add ops1 k = Some (v1, d1) -> last_add ops2 k = Some (v2, d2) ->
+  Forall (fun d => r_sys d = sys_npm) d1 -> deps_separated d1 -> Permutation d1 d2 ->
+  requirements_of (run O var ops1) k = requirements_of (run O var ops2) k.
+Proof. exact requirements_order_insensitive. Qed.
+Print Assumptions C14_requirements_order_insensitive.
+
+(* requirements shown under one name (x, and b known as x) are not separated: they come back in
+   the order given (the situation of F-C18-2) *)
+Theorem C14_requirements_ties_refuted :
+  dep_cmp e_t1 e_t2 = 0%Z /\ e_t1 <> e_t2 /\
+  sort_deps [e_t1; e_t2] = [e_t1; e_t2] /\ sort_deps [e_t2; e_t1] = [e_t2; e_t1].
+Proof. exact deps_ties_witness. Qed.
+Print Assumptions C14_requirements_ties_refuted.
+
+(* foo_bar before foobar (the underscore sorts before the letters once lower-cased), the
+   development-only requirement last, from both orders *)
+Example C14_requirements_order_example :
+  deps_separated [e_d3; e_d2; e_d1] /\
+  sort_deps [e_d3; e_d2; e_d1] = [e_d1; e_d2; e_d3] /\ sort_deps [e_d2; e_d1; e_d3] = [e_d1; e_d2; e_d3].
+Proof. exact deps_order_example. Qed.
+
 (* listing a package returns each added (non-deleted) version once ... *)
 Theorem C14_versions_once : forall O var ops p vs, v_add var <> Current ->
   versions_of (run O var ops) p = Ok vs ->
@@ -152,6 +190,102 @@ Theorem C14_matching : forall O var c k,
     end.
 Proof. exact matching_spec. Qed.
 Print Assumptions C14_matching.
+
+(* npm: where the version tagged latest stands is decided on the PACKAGE, not on the match.
+   [isort (npm_less O) vs] is the package's slice in ascending npm order (C12_sorted_npm); y is
+   the last version in it whose tags hold latest (when exactly one live version carries the
+   tag: that one).  MatchingVersions is then the selection, by the requirement, from the list
+   in which y stands last - unless y is a prerelease while the package, that is vs and not the
+   versions that match, has a version that is not a prerelease. *)
+Theorem C14_matching_latest_on_package : forall O var c k vs pre y post,
+  N.eqb (pk_sys (vk_pkg k)) sys_npm = true ->
+  pkg_list c (vk_pkg k) = Some vs ->
+  isort (npm_less O) vs = pre ++ y :: post ->
+  has_latest (v_cfg var) y = true -> forallb (fun v => negb (has_latest (v_cfg var) v)) post = true ->
+  let ordered := if is_pre O y && existsb (fun v => negb (is_pre O v)) vs
+                 then pre ++ y :: post else pre ++ post ++ [y] in
+  matching_versions O var c k =
+    Ok (if o_constraint O sys_npm (vk_ver k)
+        then filter (satisfies O sys_npm (vk_ver k)) ordered
+        else firstn 1 (filter (satisfies O sys_npm (vk_ver k)) ordered)).
+Proof. exact matching_latest_on_package. Qed.
+Print Assumptions C14_matching_latest_on_package.
+
+(* the hypotheses are met by a package {1.0.0, 2.0.0-a [latest], 2.0.0-b} and a requirement that
+   matches the two prereleases only: match and package disagree about "has a release".  The
+   answer keeps 2.0.0-a in place; decided on the match alone it would have been moved last. *)
+Example C14_matching_latest_on_package_example :
+  laws_ok pre_oracle /\
+  isort (npm_less pre_oracle) [e_100; e_200a; e_200b] = [e_100] ++ e_200a :: [e_200b] /\
+  has_latest cfg_repaired e_200a = true /\
+  is_pre pre_oracle e_200a && existsb (fun v => negb (is_pre pre_oracle v)) [e_100; e_200a; e_200b] = true /\
+  existsb (fun v => negb (is_pre pre_oracle v)) [e_200a; e_200b] = false /\
+  versions_of (run pre_oracle var_repaired e_hist) (vk_pkg e_req) = Ok [e_100; e_200a; e_200b] /\
+  matching_versions pre_oracle var_repaired (run pre_oracle var_repaired e_hist) e_req = Ok [e_200a; e_200b] /\
+  sort_npm cfg_repaired pre_oracle [e_200a; e_200b] = [e_200b; e_200a].
+Proof. split; [exact pre_oracle_laws | repeat split]. Qed.
+
+(* Over all histories, for the client as repaired in the tree: MatchingVersions is the
+   selection, by the requirement, from the very list that Versions returns (which is in npm
+   order with the latest rule applied to the whole package: C14_versions_sorted).  Sorting a
+   copy of the stored slice again changes nothing.  For a constraint the selection is filter;
+   for an npm requirement that is not a range, its first element. *)
+Theorem C14_matching_selects_from_versions_npm : forall O var ops k vs,
+  laws_ok O -> v_add var = FixAssignSort -> N.eqb (pk_sys (vk_pkg k)) sys_npm = true ->
+  Forall (add_parses O) ops -> Forall add_concrete ops ->
+  versions_of (run O var ops) (vk_pkg k) = Ok vs ->
+  matching_versions O var (run O var ops) k =
+    Ok (if o_constraint O sys_npm (vk_ver k)
+        then filter (satisfies O sys_npm (vk_ver k)) vs
+        else firstn 1 (filter (satisfies O sys_npm (vk_ver k)) vs)).
+Proof. exact matching_selects_from_versions. Qed.
+Print Assumptions C14_matching_selects_from_versions_npm.
+
+(* Maven, PyPI: the same, whether or not matchRequirement sorts a copy; [separated] holds
+   always once SortVersions breaks ties by spelling (C12_separated_when_repaired) *)
+Theorem C14_matching_selects_from_versions : forall O var ops k vs,
+  laws_ok O -> N.eqb (pk_sys (vk_pkg k)) sys_npm = false ->
+  Forall (add_parses O) ops -> Forall add_concrete ops ->
+  separated (v_cfg var) O (pk_sys (vk_pkg k)) vs ->
+  versions_of (run O var ops) (vk_pkg k) = Ok vs ->
+  matching_versions O var (run O var ops) k =
+    Ok (filter (satisfies O (pk_sys (vk_pkg k)) (vk_ver k)) vs).
+Proof. exact matching_selects_from_versions_gen. Qed.
+Print Assumptions C14_matching_selects_from_versions.
+
+(* the slice Versions returns is a fixed point of SortVersions (npm, repaired client) *)
+Theorem C14_versions_npm_fixpoint : forall O var ops p vs,
+  laws_ok O -> v_add var = FixAssignSort -> N.eqb (pk_sys p) sys_npm = true ->
+  Forall (add_parses O) ops -> Forall add_concrete ops ->
+  versions_of (run O var ops) p = Ok vs -> sort_npm (v_cfg var) O vs = vs.
+Proof. exact versions_npm_fixpoint. Qed.
+Print Assumptions C14_versions_npm_fixpoint.
+
+(* ... and in that list the version tagged latest (the last one so tagged in ascending order)
+   stands last unless it is a prerelease while the package has a version that is not *)
+Theorem C14_versions_latest_position : forall O var ops p vs pre y post,
+  laws_ok O -> v_add var = FixAssignSort -> N.eqb (pk_sys p) sys_npm = true ->
+  Forall (add_parses O) ops -> Forall add_concrete ops ->
+  versions_of (run O var ops) p = Ok vs ->
+  isort (npm_less O) vs = pre ++ y :: post ->
+  has_latest (v_cfg var) y = true -> forallb (fun v => negb (has_latest (v_cfg var) v)) post = true ->
+  vs = if is_pre O y && existsb (fun v => negb (is_pre O v)) vs then pre ++ y :: post else pre ++ post ++ [y].
+Proof. exact versions_latest_position. Qed.
+Print Assumptions C14_versions_latest_position.
+
+(* a re-addition WITHOUT requirements leaves the version without requirements: the earlier ones
+   do not survive (corollary of C14_requirements) *)
+Theorem C14_readd_empty_requirements : forall O var,
+  (forall ops v, deleted v = false ->
+     requirements_of (run O var (ops ++ [HAdd v []])) (v_key v) = Ok []) /\
+  (forall ops k v, last_add ops k = Some (v, []) -> requirements_of (run O var ops) k = Ok []).
+Proof. intros O var. split; [exact (readd_empty_requirements O var) | exact (last_add_empty_requirements O var)]. Qed.
+Print Assumptions C14_readd_empty_requirements.
+
+Example C14_readd_empty_requirements_example :
+  requirements_of (run pre_oracle var_repaired [HAdd e_100 [e_dep]]) (v_key e_100) = Ok [e_dep] /\
+  requirements_of (run pre_oracle var_repaired [HAdd e_100 [e_dep]; HVersions (v_pkg e_100); HAdd e_100 []]) (v_key e_100) = Ok [].
+Proof. exact readd_empty_example. Qed.
 
 (* only AddVersion writes to the store: every lookup, MatchingVersions included (it sorts
    a copy of the slice), leaves it as it was *)
